@@ -52,29 +52,29 @@ type Dir struct {
 	Conn *Conn
 	net  *Net
 
-	mu       sync.Mutex
-	pending  [][]byte
-	inflight []seg
-	rbuf     []byte
-	sig      chan struct{}
-	eofQueued, eof, rst     bool
-	rdClosed                bool // reader closed its end
-	wrClosed                bool // writer closed its end
-	brokenWrites            int
-	Window                  int // 0 = unlimited
-	Blackhole               bool
-	StallUntil              time.Duration
-	Latency                 time.Duration
-	Jitter                  time.Duration
-	SegMode                 int
-	lastDue                 time.Duration
-	Tap                     Tap
-	frbuf                   []byte
-	Written, Delivered      int64
-	Observers               []func(frame []byte) // passive, see whole frames in write order
-	obuf                    []byte
-	DeliveredObservers      []func(frame []byte) // see whole frames once fully delivered to the reader
-	dbuf                    []byte
+	mu                  sync.Mutex
+	pending             [][]byte
+	inflight            []seg
+	rbuf                []byte
+	sig                 chan struct{}
+	eofQueued, eof, rst bool
+	rdClosed            bool // reader closed its end
+	wrClosed            bool // writer closed its end
+	brokenWrites        int
+	Window              int // 0 = unlimited
+	Blackhole           bool
+	StallUntil          time.Duration
+	Latency             time.Duration
+	Jitter              time.Duration
+	SegMode             int
+	lastDue             time.Duration
+	Tap                 Tap
+	frbuf               []byte
+	Written, Delivered  int64
+	Observers           []func(frame []byte) // passive, see whole frames in write order
+	obuf                []byte
+	DeliveredObservers  []func(frame []byte) // see whole frames once fully delivered to the reader
+	dbuf                []byte
 }
 
 // Conn is a simulated TCP connection.
